@@ -16,7 +16,18 @@ PROPS = {
     "C07": {"engines": [("site", {"quick": 2400, "thorough": 60000})], "rule": SITE_RULE, "assumptions": SITE_ASSUME},
 }
 
+MUT_RULE = ("seeded generator (harness/engines/mutate.py): 1-3 mutable list objects (flat or nested), 1-3 call sites over == <= >= in, "
+            "schedules of comparisons interleaved with in-place mutations (append / pop / item assignment / clear / inner append); "
+            "non-trivial = a mutation follows a comparison and some change is pending")
+
+for _p in ("C05", "C14"):
+    PROPS[_p] = {"engines": [("site", {"quick": 2400, "thorough": 60000})], "rule": SITE_RULE, "assumptions": SITE_ASSUME}
+PROPS["C17"] = {"engines": [("mutate", {"quick": 1600, "thorough": 40000}), ("site", {"quick": 800, "thorough": 20000})],
+                "rule": MUT_RULE + " ; plus " + SITE_RULE,
+                "assumptions": SITE_ASSUME + ["copy.deepcopy copies lists of ints faithfully (the harness keeps its own heap as the independent record)"]}
+
 ENGINES = {
+    "mutate": "in-process differential run with mutable compared objects and mutation schedules; independent heap simulation as oracle",
     "site": "in-process differential run of the call-site state machine (Model/Site.lean, Table.lean) against the real snapshot classes",
 }
 NOT_YET = {}
@@ -28,3 +39,15 @@ PROPS["C06"]["level_text"] = ("Theorems transparent_step / transparent / mixed_o
 PROPS["C07"]["level_text"] = ("Theorems step_wrong_counts, step_holds_no_count, step_mono, never_green, no_false_failure: for every flag set and every test "
     "(event list) one empty or failing snapshot makes the teardown counters non-zero, and tests whose snapshots all hold keep them at zero; the model's "
     "counters after every test are compared with the real State counters, plus a direct oracle on the implementation's counters.")
+
+PROPS["C05"]["level_text"] = ("Theorems (Props/C05.lean) over an abstract value type with a total order / an equivalence: create_only_fills_missing, "
+    "create_keeps_existing, fix_reported_iff_bound, trim_reported_iff_bound, fix_applied_all_hold_bound, trim_tightest_bound, update_keeps_value_bound, "
+    "fix_trim_reported_iff_coll, coll_final, eq_categories — for every stored value, every observation sequence (induction over it) and every approved set. "
+    "Correspondence: reported categories and value after applying the approved set, per call site, model vs real classes; direct oracle evaluates the "
+    "documented clauses on the implementation's output.")
+PROPS["C14"]["level_text"] = ("Theorems noninterference (for every interleaving of flat events the entry of site k equals the run of its own events), aggregate_extreme, "
+    "aggregate_union, reeval_changed_argument_raises. Correspondence: programs with 1-6 call sites in placements fn / lambda / module level / two on one line, "
+    "scripted interleavings; every model site must be known to the implementation and vice versa, per-site values compared.")
+PROPS["C17"]["level_text"] = ("Theorems recorded_is_value_at_comparison_time (heap model: for every schedule of comparisons and mutations the table equals the run on the "
+    "values at comparison time), mutation_after_irrelevant, unequal_copy_rejected(_later). Correspondence: real tests mutate the compared lists after and "
+    "between assertions; the harness's own heap simulation is the independent record the written values are checked against.")
